@@ -104,7 +104,9 @@ fn prompt_text(p: &PrintStmt, up: bool) -> String {
         PrintStmt::MemDs(n) => format!("print mem :{}", n),
     };
     if up {
-        format!("  {}  ", s.to_uppercase())
+        // the second spelling: upper case, surrounded by blanks, numbers zero-padded (decimal all the same)
+        let padded: String = s.split(' ').map(|t| if t.len() >= 2 && t.len() <= 5 && t.chars().all(|c| c.is_ascii_digit()) { format!("00{}", t) } else { t.to_string() }).collect::<Vec<_>>().join(" ");
+        format!("  {}  ", padded.to_uppercase())
     } else {
         s
     }
